@@ -1236,25 +1236,43 @@ INTEGER_compare(const asn_TYPE_descriptor_t *td, const void *aptr,
 
     if(a && b) {
         if(a->size && b->size) {
-            int sign_a = (a->buf[0] & 0x80) ? -1 : 1;
-            int sign_b = (b->buf[0] & 0x80) ? -1 : 1;
+            const uint8_t *abuf = a->buf;
+            const uint8_t *bbuf = b->buf;
+            size_t asize = a->size;
+            size_t bsize = b->size;
+            int sign_a = (abuf[0] & 0x80) ? -1 : 1;
+            int sign_b = (bbuf[0] & 0x80) ? -1 : 1;
 
             if(sign_a < sign_b) return -1;
             if(sign_a > sign_b) return 1;
 
+            /* Redundant leading sign octets do not change the value */
+            while(asize > 1
+                  && ((abuf[0] == 0x00 && !(abuf[1] & 0x80))
+                      || (abuf[0] == 0xff && (abuf[1] & 0x80)))) {
+                abuf++;
+                asize--;
+            }
+            while(bsize > 1
+                  && ((bbuf[0] == 0x00 && !(bbuf[1] & 0x80))
+                      || (bbuf[0] == 0xff && (bbuf[1] & 0x80)))) {
+                bbuf++;
+                bsize--;
+            }
+
             /* The shortest integer wins, unless comparing negatives */
-            if(a->size < b->size) {
+            if(asize < bsize) {
                 return -1 * sign_a;
-            } else if(a->size > b->size) {
+            } else if(asize > bsize) {
                 return 1 * sign_b;
             }
 
-            return sign_a * memcmp(a->buf, b->buf, a->size);
+            return sign_a * memcmp(abuf, bbuf, asize);
         } else if(a->size) {
             int sign = (a->buf[0] & 0x80) ? -1 : 1;
             return (1) * sign;
         } else if(b->size) {
-            int sign = (a->buf[0] & 0x80) ? -1 : 1;
+            int sign = (b->buf[0] & 0x80) ? -1 : 1;
             return (-1) * sign;
         } else {
             return 0;
